@@ -370,6 +370,8 @@ func writeEvidence(id, tier string, seed int, spec *PropSpec, results []*UnitRes
 		level = "proof"
 	}
 	var list []oblEvidence
+	omitted := 0
+	defer func() { _ = omitted }()
 	n, d, nontrivial, bn, bd := 0, 0, 0, 0, 0
 	var solverMs int64
 	bySolver := map[string]int{}
@@ -400,7 +402,11 @@ func writeEvidence(id, tier string, seed int, spec *PropSpec, results []*UnitRes
 		if o.Bounded {
 			st = "bounded:" + st
 		}
-		list = append(list, oblEvidence{Name: o.Name, Kind: o.Kind, Unit: o.Unit, Status: st, Solver: o.Solver, Ms: o.Ms, Src: o.Src, Pos: o.Pos})
+		if o.Trivial && o.Kind == "nopanic" && len(obls) > 1500 {
+			omitted++ // syntactically discharged safety obligations are only counted when the list is huge
+		} else {
+			list = append(list, oblEvidence{Name: o.Name, Kind: o.Kind, Unit: o.Unit, Status: st, Solver: o.Solver, Ms: o.Ms, Src: o.Src, Pos: o.Pos})
+		}
 		if len(samples) < 4 && !o.Trivial && (o.Kind == "post" || o.Kind == "lemma" || o.Kind == "inv") {
 			samples = append(samples, map[string]string{"obligation": o.Name, "clause": o.Src, "goal_smt": truncate(o.Goal.String(), 600)})
 		}
@@ -467,6 +473,7 @@ func writeEvidence(id, tier string, seed int, spec *PropSpec, results []*UnitRes
 		"rule":                    "one evaluation = one proof obligation generated from the current /repo sources; non-trivial = not syntactically true after simplification (sent to the SMT portfolio)",
 		"samples":                 samples,
 		"obligation_list":         list,
+		"syntactic_nopanic_obligations_not_listed": omitted,
 		"bounded_obligations":     bn,
 		"bounded_discharged":      bd,
 		"functions_under_contract": fns,
